@@ -119,6 +119,9 @@ func aofScripts() []PSeq {
 		{ID: "s8", Mode: "aof", Sync: "always", Ops: []POp{{Conn: -1, Cmd: h("set", "k1", "a")}, {Conn: -1, Cmd: h("@rewrite")}, {Conn: -1, Cmd: h("flushall")}, {Conn: -1, Cmd: h("@rewrite")}}},
 		{ID: "s9", Mode: "aof", Sync: "always", Ops: []POp{{Conn: -1, Cmd: h("set", "k1", "a")}, {Conn: -1, Cmd: h("set", "k2", "a-much-longer-value-than-before")}, {Conn: -1, Cmd: h("@rewrite")}, {Conn: -1, Cmd: h("del", "k2")}, {Conn: -1, Cmd: h("@rewrite")}, {Conn: -1, Cmd: h("@rewrite")}}},
 		{ID: "s10", Mode: "aof", Sync: "always", NoGuard: true, Ops: []POp{{Conn: -1, Cmd: h("set", "k1", "a")}, {Conn: -1, Cmd: h("rename", "nosuchkey", "k2")}, {Conn: -1, Cmd: h("@rewrite")}}},
+		{ID: "s11", Mode: "aof", Sync: "always", Ops: []POp{{Conn: -1, Cmd: h("sadd", "s1", "a", "b", "c", "d", "e", "f", "g", "h")}, {Conn: -1, Cmd: h("spop", "s1", "4")}, {Conn: -1, Cmd: h("set", "k1", "a")}}},
+		{ID: "s13", Mode: "aof", Sync: "always", Ops: []POp{{Conn: -1, Cmd: h("sadd", "s1", "a", "b", "c", "d", "e", "f", "g", "h")}, {Conn: -1, Cmd: h("spop", "s1", "4")}, {Conn: -1, Cmd: h("@rewrite")}}},
+		{ID: "s12", Mode: "aof", Sync: "always", Ops: []POp{{Conn: -1, Cmd: h("set", "k1", "a", "pxat", fmt.Sprint(StartMs+500))}, {Conn: -1, Cmd: h("append", "k1", "x")}, {Conn: -1, Adv: 1000, Cmd: h("set", "k2", "b")}}},
 		{ID: "s6", Mode: "aof", Sync: "always", Ops: []POp{{Conn: -1, Cmd: h("sadd", "s1", "a", "b")}, {Conn: -1, Cmd: h("hset", "h1", "f", "1")}, {Conn: -1, Cmd: h("rpush", "l1", "x")}, {Conn: -1, Cmd: h("set", "n", "5")}, {Conn: -1, Cmd: h("@rewrite")}, {Conn: -1, Cmd: h("incr", "n")}}},
 	}
 }
